@@ -279,6 +279,39 @@ def sandwich_case(draw, jobs=(None, 1, 2, 3, 3, 4), flags=(), p_fail_den=6, tape
     return case
 
 
+@st.composite
+def fan_case(draw, sizes=(14, 20, 28)):
+    """A wide fan of SEQUENTIAL experiments most of which fail, run under a tight limit on open file descriptors
+    (`fdlimit`): whatever Conductor fails to release per finished task (pipes of the tee threads, log files) adds up until
+    tasks that have nothing to do with the failures cannot be launched any more."""
+    n = draw(st.sampled_from(list(sizes)))
+    pkgs = draw(st.sampled_from(PKG_SETS))
+    tasks = [{"pkg": 0, "name": "all0", "kind": "group", "deps": []}]
+    oc = {}
+    for i in range(1, n + 1):
+        tasks.append({"pkg": draw(st.sampled_from(range(len(pkgs)))), "name": "e%d" % i,
+                      "kind": draw(st.sampled_from(["exp", "exp", "exp", "cmd"])), "deps": [], "par": False})
+        if draw(st.sampled_from(range(8))) != 0:
+            oc[str(i)] = draw(st.sampled_from([{"exit": 10 + i % 200}, {"exit": 10 + i % 200}, {"signal": 9}]))
+    # a few healthy tasks that are listed (hence started) last
+    for j in range(draw(st.sampled_from([1, 2, 3]))):
+        tasks.append({"pkg": 0, "name": "ok%d" % j, "kind": "exp", "deps": [], "par": False})
+    order = list(range(1, len(tasks)))
+    tasks[0]["deps"] = [[i, "abs"] for i in order]
+    return {"pkgs": pkgs, "tasks": tasks, "target": 0, "seeded": {}, "jobs": draw(st.sampled_from([None, 1])),
+            "flags": [], "outcomes": oc, "tape": [], "foreign": 0, "fdlimit": draw(st.sampled_from([24, 32, 40]))}
+
+
+def fdlimit_hook(margin):
+    """`pre` hook: the soft RLIMIT_NOFILE becomes what is open now plus `margin`."""
+    def pre(res):
+        import resource
+        n = len(os.listdir("/proc/self/fd"))
+        hard = resource.getrlimit(resource.RLIMIT_NOFILE)[1]
+        resource.setrlimit(resource.RLIMIT_NOFILE, (n + margin, hard))
+    return pre
+
+
 def expected_code(outcome):
     """The number Conductor reports for a failed task (exit code, or signal number)."""
     if "signal" in outcome:
@@ -337,7 +370,8 @@ def run_graph_case(case, inject=None, clock=1000.0, keep_root=False, env=None):
         projgen.write_project(root, case)
         rows_before = seed_case(root, case)
         plant_conflicts(root, case)
-        res = run_cond(root, argv_for(case), kspec=kernel_spec(case, clock), inject=inject, env=env)
+        res = run_cond(root, argv_for(case), kspec=kernel_spec(case, clock), inject=inject, env=env,
+                       pre=fdlimit_hook(case["fdlimit"]) if case.get("fdlimit") else None)
         res["rows_before"] = rows_before
         res["rows_after"] = projgen.read_rows(root)
         res["root"] = root
